@@ -181,6 +181,32 @@ PROPS['C07'] = dict(
 )
 
 
+# ---------------------------------------------------------------- C08 (h_write)
+def c08_passes(tier, sc):
+    ntab = n(tier, 6, 36, sc)
+    return [Pass('prod', 'h_write.prod', 'C08', ntab * 32, chunk=1, stall_s=900)]
+
+
+PROPS['C08'] = dict(
+    level_text='Fault enumeration over the recorded sequence of file operations: the stdio layer under cfitsio is interposed inside the harness, '
+               'one successful write_fits of each table is recorded operation by operation (open/write/seek/flush/truncate/close/remove with offsets and bytes); '
+               'then (a) the file image after EVERY operation prefix and after byte-granular cuts inside every fwrite is replayed by offset and given to read_fits '
+               '(must be rejected or load equal), and (b) write_fits / writesplinefitstable is re-run with EVERY operation failing in turn (short or zero write with '
+               'ENOSPC/EFBIG/EIO, transient and persistent; failing flush, close, seek, truncate, open, remove) and may report success only if the file reads back equal; '
+               'write_fits_mem gets every position of a failing realloc. Complete over the recorded operation sequence of each table explored.',
+    level_note=NOTE_COMMON + '; crash states are modelled as prefixes of the stdio operation stream (stdio flushes in stream order and on seek)',
+    technique='fault injection by stdio interposition + crash-state replay from a recorded operation log',
+    targets=[T('h_write.cpp', 'prod')],
+    passes=c08_passes,
+    level='fault_enumeration',
+    rule='case = (table of 1-5 dims whose coefficient data spans ~1,2,9,41,42,300 FITS blocks, 1/16 slice of its crash states or of its fault sequences); '
+         'crash states = all operation prefixes + block/card boundary +-1 and random byte cuts inside each fwrite; fault sequences = every operation index x applicable fault kinds; '
+         'distinct_nontrivial counts distinct (table, state) and (table, op, fault) pairs',
+    assumptions=ASSUME_COMMON + ['a crash leaves a prefix of the stdio operation stream on disk (no reordering below stdio)'],
+    require={'any': {'crash-states': 500, 'crash-states-rejected': 300, 'faults-fired': 100, 'writes-reporting-failure': 80, 'realloc-faults-injected': 5, 'out-of-order-writes': 1}},
+)
+
+
 def all_targets():
     seen, out = set(), []
     for p in PROPS.values():
